@@ -292,6 +292,23 @@ def run_error_rs(facts, rep):
                             ok_kind = any(a[0] == "agg" and a[2] == "FileNotFound" for a in alts(v))
         rep.ob("R12.3a", fb.id, "normalised kind is stored", ok_kind,
                "kind field receives the normalised value" if ok_kind else "kind field does not receive the normalised kind", fb.span)
+    # io errors enter only through error.rs (From<io::Error> -> From<VfsErrorKind>, where NotFound is normalised): nobody
+    # else wraps an io::Error into a kind by hand
+    io_ctor = []
+    for b in facts.bodies:
+        for blk in b.blocks:
+            if blk.cleanup:
+                continue
+            for s_ in blk.stmts:
+                if s_.kind == "assign" and s_.rv.kind == "agg" and s_.rv.agg.get("adt") == "error::VfsErrorKind" and \
+                        s_.rv.agg.get("variant") in ("IoError", "AsyncIoError"):
+                    io_ctor.append((b, s_.line, s_.rv.agg.get("variant")))
+    for b, line, var in io_ctor:
+        inside = b.file.endswith("src/error.rs") or b.file == "src/error.rs"
+        rep.ob("R12.3a", b.id, "io::Error wrapped into a kind only in error.rs", inside,
+               "" if inside else "%s builds VfsErrorKind::%s by hand: the error bypasses From<io::Error>, so an OS 'no such file' "
+               "is not classified as FileNotFound" % (b.id, var), line)
+    rep.floor("io-error kind construction sites", len(io_ctor), 2)
     # From<io::Error> delegates
     fio = facts.body("<error::VfsError as std::convert::From<std::io::Error>>::from")
     if fio is None:
@@ -426,6 +443,23 @@ def run(facts, rep, tier, ctx):
             rep.ob("R12.3e", o["fn"], o["key"].split("|")[2], o["ok"], o["detail"], o["loc"])
     physrules.table_o_shape(facts, rep, "R12.3e", ws)
     physrules.mkdir_not_asked(facts, rep, "R12.3e", ws, D)
+    # optional operations an adapter forwards keep the NotSupported class of the layer they act on: an overlay setter must
+    # not run a copy-up (or anything else fallible with another class) in front of the delegation (shared with C19 R19.4o)
+    from . import c09
+    for w_ in (ws, wa):
+        if not w_.present():
+            continue
+        scratch = Report("u")
+        c09.table_u(facts, scratch, w_, "U", only=("set_creation_time", "set_modification_time", "set_access_time"))
+        for o in scratch.obligations:
+            d = o["key"].split("|")[2]
+            if "no copy-up" in d:
+                rep.ob(("A/" if w_.asyncw else "") + "R12.3u", o["fn"], d, o["ok"], o["detail"], o["loc"])
+    if wa.present():
+        from .c10 import _Prefixed
+        A = _Prefixed(rep, "A")
+        physrules.table_o_shape(facts, A, "R12.3e", wa)
+        physrules.mkdir_not_asked(facts, A, "R12.3e", wa, D)
     if tier == "thorough":
         run_witness(rep, ctx)
     rep.assume("backends and adapters may return placeholder / inner-namespace paths by design; only the path layer labels")
